@@ -22,7 +22,7 @@ def run(run, tier, seed):
     run.add_design(d)
     # the traversal stage on the indel universe: LoGraph!BuiltGroups on every deletion / tandem duplication (optionally with a
     # substitution next to it) of MC_LoIndel; the hooked `ska lo` must build the same SNP groups and indel groups
-    c17.replay_entries(run, tier, seed, module="MC_LoIndel", tag="c18-graph", nq=300, nt=20000)
+    c17.replay_entries(run, tier, seed, module="MC_LoIndel", tag="c18-graph", nq=300, nt=20000, declarative=False)   # k = 5 is outside C18's k-domain: conformance only
     events = lodrv.indel_events(run, tier, seed + 18, "c18")
     c17.finish(run, events, "c18", tier)
     # "at least 90% reported" is a statement about a rate; a run observes a finite sample of it. To keep sampling
